@@ -169,7 +169,11 @@ func (g *Generator) generateSchemaRefFor(parents []*theTypeInfo, t reflect.Type,
 		return nil, err
 	}
 	if ref != nil {
-		g.Types[t] = ref
+		// The schema of a pointer type depends on where the type stands (nullable unless it is the
+		// root): what the root got must not be handed out for a field or an element later on
+		if !(parents == nil && t.Kind() == reflect.Ptr) {
+			g.Types[t] = ref
+		}
 		g.SchemaRefs[ref]++
 	}
 	return ref, nil
